@@ -156,4 +156,37 @@ def runFrom (s : S) : List Step → S × List Out
 
 def run (h : List Step) : S × List Out := runFrom S.init h
 
+/-! ### `Write` with a reader closing inside it
+
+The specification of `writeH v cs` (see `Uniflow.Writer.XStep`): if the write is a request at all
+(writer open, some linked reader open) the readers `cs` close first – each exactly as `closeR` –
+and then the write happens in the state they left: it is accepted by the readers that are STILL
+open, and if none is it reports 0 and leaves no row, no write id, no queue entry behind. -/
+
+def isRequest (s : S) : Bool := !s.done && !(accepting s.closed s.linked).isEmpty
+
+def closeAll (s : S) : List RId → S × Nat
+  | [] => (s, 0)
+  | r :: rs =>
+    let p := step s (.closeR r)
+    let q := closeAll p.1 rs
+    (q.1, p.2.ret.count + q.2)
+
+def xstep (s : S) : XStep → S × XOut
+  | .base st =>
+    let p := step s st
+    (p.1, { out := p.2, shown := shownOf (isRequest s) st })
+  | .writeH v cs =>
+    if isRequest s then
+      let c := closeAll s cs
+      let p := step c.1 (.write v)
+      (p.1, { out := p.2, shown := 1, spawned := c.2 })
+    else (s, { out := { ret := .cnt 0 } })
+
+def xrunFrom (s : S) : List XStep → S × List XOut
+  | [] => (s, [])
+  | st :: h => ((xrunFrom (xstep s st).1 h).1, (xstep s st).2 :: (xrunFrom (xstep s st).1 h).2)
+
+def xrun (h : List XStep) : S × List XOut := xrunFrom S.init h
+
 end Uniflow.WriterSpec
